@@ -202,6 +202,15 @@ def gen_family(rnd, threads: int = 0, nested: bool = False) -> dict | None:
     return fam
 
 
+def within_resource_bound(fam: dict) -> bool:
+    """Every call of the family, under the values it really gets (resized copies of the base values, provider values along the
+    history), stays below the reference's resource bound: a power of millions of bits stalls the extracted model (DESIGN 10)."""
+    scopes = scopes_along(fam)
+    steps = [(st, scopes[i]) for i, st in enumerate(fam["steps"]) if "fn" in st]
+    steps += [(st, scopes[-1] if scopes else {}) for st in fam.get("inner_steps", [])]
+    return not any(ctxrun.beyond_resource_bound(history.single_case(fam, st["fn"], st, sc)) for st, sc in steps)
+
+
 def expected_for(fam: dict, model: Model, scopes: list) -> list:
     reqs, idx = [], []
     for i, st in enumerate(fam["steps"]):
@@ -242,15 +251,15 @@ def run(tier: str, seed: int, rep: Report, model: Model) -> dict:
     fams = []
     while len(fams) < n_seq:
         f = gen_family(rnd)
-        if f:
+        if f and within_resource_bound(f):
             fams.append(("seq", f))
     while len(fams) < n_seq + n_thr:
         f = gen_family(rnd, threads=8)
-        if f:
+        if f and within_resource_bound(f):
             fams.append(("threads", f))
     while len(fams) < n_seq + n_thr + n_nest:
         f = gen_family(rnd, nested=True)
-        if f:
+        if f and within_resource_bound(f):
             fams.append(("nested", f))
     worker = ImplWorker("harness.props.c09")
     try:
